@@ -198,4 +198,23 @@ def restart (s : Sess) : Option Sess :=
       | _ => none
   (go closed.dbs).map fun dbs => { dbs := dbs, cur := none }
 
+/-- start-up recovery of every database (`InitStorage`), as in `restart` -/
+def recoverEvery : List (String × DB) → Option (List (String × DB))
+  | [] => some []
+  | (n, db) :: rest =>
+    match recover db [] [] with
+    | .ok db' => (recoverEvery rest).map fun tl => (n, { db' with store := reopen db'.store }) :: tl
+    | _ => none
+
+/-- the process dies (the cache of the selected database is dropped, nothing is flushed: the data file
+is what the page flushes so far left, the log holds every acknowledged statement), then start-up recovery
+of every database.  Correspondence only: the theorems about crashes are per database (C02-C04). -/
+def crashRestart (s : Sess) : Option Sess :=
+  let dropped : Sess := match s.cur with
+    | some c => (match getDB s c with
+      | some db => setDB s c { db with store := reopen db.store }
+      | none => s)
+    | none => s
+  (recoverEvery dropped.dbs).map fun dbs => { dbs := dbs, cur := none }
+
 end Mkdb.Session
